@@ -49,7 +49,10 @@ def cases(tier, seed):
                 [i % 6],
                 'ds': {'seed': int(r.randint(2**31 - 1)),
                        'd': int(r.randint(2, 5 if q else 6)),
-                       'classes': int(r.randint(2, 4)), 'variant': 'plain',
+                       'classes': int(r.randint(2, 4)),
+                       # integer-typed data with fractional weights: the
+                       # weights must not inherit the dtype of the data
+                       'variant': 'int' if (i // 6) % 2 else 'plain',
                        'nmax': 40},
                 'n_tuples': int(r.choice([8, 16, 30])),
                 'seed': int(r.randint(1000))})
@@ -66,6 +69,24 @@ def required(tier):
 
 
 # ------------------------------------------------------------------ oracle
+def _below_resolution(M, G, gnorm, fM, vab, vcd, w, M0inv, j=None):
+  """Largest decrease obtainable along -G (second-order bound using the
+  curvature of the -logdet term only; the hinge term is convex and can only
+  add curvature) compared with the rounding error of one objective
+  evaluation (eps times the sum of the magnitudes of its terms)."""
+  Minv = np.linalg.inv(M)
+  curv = float(np.sum(Minv.dot(G) * (Minv.dot(G)).T))
+  if not curv > 0:
+    return False
+  attainable = gnorm ** 4 / (2.0 * curv)
+  scale = float(np.abs(M * M0inv.T).sum()) + \
+      abs(float(np.linalg.slogdet(M)[1])) + abs(fM)
+  ratio = attainable / (np.finfo(float).eps * max(scale, 1e-300))
+  if j is not None:
+    j.note('resolution ratio %.3g (gnorm %.3g)' % (ratio, gnorm))
+  return ratio < 1e3
+
+
 def objective(M, vab, vcd, w, M0inv):
   """sum_i w_i [sqrt(d_ab) - sqrt(d_cd)]_+^2 + tr(M M0^-1) - logdet M."""
   total = 0.0
@@ -156,11 +177,12 @@ def run_case(spec, j):
   api.set_judge(j, well_formed=True)
   with Quiet():
     try:
+      Xarg = ds['X']     # as generated: int64 for the 'int' variant, C or F
       if name == 'LSML':
-        est.fit(Q, weights=wgt)
+        est.fit(np.asarray(Xarg)[idx], weights=wgt)
       else:
         est.set_params(weights=wgt)
-        est.fit(X, ds['y'])
+        est.fit(Xarg, ds['y'])
     except Exception as e:
       api.set_well_formed(False)
       j.violated('C12.fit-returns', dict(det, raised=repr(e)[:300]),
@@ -213,6 +235,10 @@ def run_case(spec, j):
     elif gnorm <= tol * (1 + 1e-6):
       j.ok('C12.stationary')
       j.margin('C12.stationary', gnorm / tol)
+    elif _below_resolution(Ms, G, gnorm, fM, vab, vcd, wnorm, M0inv, j):
+      # no step along -G can lower the objective by more than the rounding
+      # error of evaluating it: "within tol" is not decidable here
+      j.skip('C12.stationary', 'decrease-below-objective-resolution')
     else:
       j.violated('C12.stationary',
                  dict(det, grad_norm=gnorm, tol=tol, n_iter=n_iter,
